@@ -27,6 +27,8 @@ structure St where
   ackGrant : List Pair            -- grants that have been answered
   ackRel   : List Pair            -- releases that have been answered
   ended    : List Pair            -- ghost: holds that have left the lock table (keys are never reused)
+  booked   : List Pair            -- ghost: holds that have ever been recorded (AddLock runs once per granted key)
+  expiring : List Pair            -- ghost: holds whose lease timer has fired (the callback releases them)
 deriving DecidableEq, Repr
 
 inductive Act
@@ -38,6 +40,7 @@ inductive Act
   | write                         -- `fh.Write(d)` (+ `Sync`)
   | answerGrant (p : Pair)        -- the Lock/TryLock response leaves the server
   | answerRelease (p : Pair)      -- the Unlock response leaves the server
+  | expire (p : Pair)             -- the lease timer of a live hold fires (its callback: tableDel, then bookDel)
 deriving DecidableEq, Repr
 
 def step (s : St) : Act → Option St
@@ -45,9 +48,12 @@ def step (s : St) : Act → Option St
   | .tableDel p => if p ∈ s.held then some { s with held := s.held.filter (· ≠ p), ended := p :: s.ended } else none
   | .bookAdd p =>
     -- needs the session-table mutex: no rewrite in progress; the grant holds the unit already
-    if s.unsaved ∨ p ∉ s.held ∨ p ∈ s.book then none else some { s with book := s.book ++ [p], unsaved := true }
+    if s.unsaved ∨ p ∉ s.held ∨ p ∈ s.book ∨ p ∈ s.booked then none
+    else some { s with book := s.book ++ [p], booked := p :: s.booked, unsaved := true }
   | .bookDel p =>
-    if s.unsaved ∨ p ∈ s.held then none else some { s with book := s.book.filter (· ≠ p), unsaved := true }
+    -- after the table released the unit (Unlock, lease callback) - or, on Unlock's "lease timer already
+    -- fired" path, while the callback has not released it yet (found by the trace validation, as for M3a)
+    if s.unsaved ∨ (p ∈ s.held ∧ p ∉ s.expiring) then none else some { s with book := s.book.filter (· ≠ p), unsaved := true }
   | .truncate => if s.unsaved ∧ s.file ≠ .empty then some { s with file := .empty } else none
   | .write => if s.unsaved ∧ s.file = .empty then some { s with file := .table s.book, unsaved := false } else none
   | .answerGrant p =>
@@ -55,9 +61,11 @@ def step (s : St) : Act → Option St
     if p ∈ s.book ∧ ¬ s.unsaved then some { s with ackGrant := p :: s.ackGrant } else none
   | .answerRelease p =>
     -- … and after `RemoveLock` (+Save) has returned
-    if p ∉ s.book ∧ p ∈ s.ended ∧ ¬ s.unsaved then some { s with ackRel := p :: s.ackRel } else none
+    if p ∉ s.book ∧ p ∈ s.booked ∧ (p ∈ s.ended ∨ p ∈ s.expiring) ∧ ¬ s.unsaved then some { s with ackRel := p :: s.ackRel } else none
+  | .expire p => if p ∈ s.held then some { s with expiring := p :: s.expiring } else none
 
-def init : St := { held := [], book := [], file := .table [], unsaved := false, ackGrant := [], ackRel := [], ended := [] }
+def init : St := { held := [], book := [], file := .table [], unsaved := false, ackGrant := [], ackRel := [], ended := [],
+                   booked := [], expiring := [] }
 
 def run : St → List Act → Option St
   | s, [] => some s
